@@ -2,13 +2,15 @@
 EXTENDS AttrQName, TLC, Json
 VARIABLE c
 \* attribute-name cases are records, element-type cases are sets of declared types
-Init == c \in Cases \cup { [D |-> D] : D \in ECases }
+Init == c \in Cases \cup { [D |-> D] : D \in ECases } \cup { [sty |-> ty] : ty \in STypes }
 Next == UNCHANGED c
 Spec == Init /\ [][Next]_c
 InvDesign == DesignInv /\ DesignInvE
 WSeq(x) == [k \in 1..3 |-> k \in x.w]
 InvEmit ==
-  IF "D" \in DOMAIN c
+  IF "sty" \in DOMAIN c
+  THEN PrintT(<<"REPLAY", ToJson([kind |-> "shared", ty |-> c.sty, text |-> SText(c.sty)])>>)
+  ELSE IF "D" \in DOMAIN c
   THEN PrintT(<<"REPLAY", ToJson([kind |-> "elem", decl |-> [k \in 1..3 |-> k \in c.D], text |-> Render(EDoc(c.D))])>>)
   ELSE PrintT(<<"REPLAY", ToJson([kind |-> "attr", d |-> c.d, dk |-> c.dk, w |-> WSeq(c), text |-> Render(QDoc(c))])>>)
 =============================================================================
